@@ -330,13 +330,73 @@ def run_other(ctx, n):
             st.close()
 
 
+def run_build_race(ctx, n):
+    """files rewritten while a directory is being staged (from the progress callback, i.e. after they were hashed and before the
+    batch is recorded): whatever the cache answers afterwards must still be the hash of the current bytes"""
+    from dvc_objects.fs.local import LocalFileSystem
+    from fsspec.callbacks import Callback
+
+    from dvc_data.hashfile.build import build
+    from dvc_data.hashfile.db.local import LocalHashFileDB
+    from dvc_data.hashfile.hash import hash_file
+    from dvc_data.hashfile.state import State
+
+    rng = ctx.rng
+    fs = LocalFileSystem()
+    for _ in range(n):
+        root = ctx.mkdtemp()
+        ws = os.path.join(root, "ws")
+        os.makedirs(ws)
+        names = ["f%d" % i for i in range(rng.randrange(2, 6))]
+        for nm in names:
+            with open(os.path.join(ws, nm), "wb") as f:
+                f.write(b"before-" + nm.encode() + b"-" * rng.randrange(0, 5))
+        state = State(root_dir=root, tmp_dir=os.path.join(root, "tmp"))
+        odb = LocalHashFileDB(fs, os.path.join(root, "odb"), state=state)
+        trigger = rng.randrange(1, len(names) + 1)
+        victims = [nm for nm in names if rng.random() < 0.6] or names[:1]
+
+        class Cb(Callback):
+            calls = 0
+
+            def relative_update(self, inc=1):
+                Cb.calls += inc
+                if Cb.calls >= trigger and victims:
+                    for nm in list(victims):
+                        p = os.path.join(ws, nm)
+                        with open(p, "ab") as f:
+                            f.write(b"+rewritten-during-build")
+                    victims.clear()
+                return super().relative_update(inc)
+
+        rewritten = list(victims)
+        algo = rng.choice(["md5", "md5", "sha256"])
+        case = {"build_race": {"files": names, "rewritten_during_build": rewritten, "after_updates": trigger, "algo": algo}}
+        try:
+            k, v = safe_call(lambda: build(odb, ws, fs, algo, callback=Cb()))
+            ctx.case(case)
+            ctx.count("build_race:rewritten=%d" % len(rewritten))
+            for nm in names:
+                p = os.path.join(ws, nm)
+                cur = digest(algo, open(p, "rb").read())
+                _, hi = state.get(p, fs)
+                ctx.oracle(hi is None or hi.name != algo or hi.value == cur, case,
+                           {"why": "a file rewritten while the directory was being staged has a stale hash in the cache", "file": nm,
+                            "cached": None if hi is None else hi.value, "current": cur})
+                _, hi2 = hash_file(p, fs, algo, state=state)
+                ctx.oracle(hi2.value == cur, case, {"why": "hash_file through the cache returns a stale hash after a rewrite during staging",
+                                                    "file": nm, "got": hi2.value, "current": cur})
+        finally:
+            state.close()
+
+
 def run(ctx):
     ctx.rule = (
         "histories of 8-30 steps over 1-4 real files: rewrite in place (same length), append, truncate, atomic replace (new inode, "
         "with and without preserved mtime), touch, delete, re-create — each followed by an explicit mtime bump from 1 ms to 3 s — "
         "interleaved with hash_file (md5 / md5-dos2unix / sha256), State.get, State.get_many and rows injected as another release "
         "would write them (version-less, newer version); batches of 0/1/998/999/1000/1100(2500) paths; staging under one algorithm "
-        "then another; index md5()+edits+update(); a memory filesystem. non-trivial = >=1 mutation and >=4 steps"
+        "then another; index md5()+edits+update(); files rewritten from the progress callback while their directory is being staged; a memory filesystem. non-trivial = >=1 mutation and >=4 steps"
     )
     ctx.assumptions = ["a mutation changes at least one of (inode, mtime, size) and never returns to a stamp the path had with other bytes (inode reuse under a preserved mtime and size is bumped); the harness enforces it with os.utime",
                        "fsspec.utils.tokenize is injective on the (ino, mtime, size) triples that occur"]
@@ -344,12 +404,14 @@ def run(ctx):
     for _ in range(ctx.n(120, 1500)):
         run_history(ctx, ctx.rng.randrange(8, 30))
     run_other(ctx, ctx.n(25, 250))
+    run_build_race(ctx, ctx.n(40, 400))
 
 
 def search(ctx):
     for _ in range(1200):
         run_history(ctx, ctx.rng.randrange(8, 30))
     run_other(ctx, 200)
+    run_build_race(ctx, 300)
 
 
 def replay(ctx, payload):
